@@ -5,6 +5,13 @@ usage: benigncheck.py <dir-with-variants>...   e.g. /tmp/ref_enc   or /verif/ben
        --keep : copy confirmed (builds + tests pass) patches to /verif/benign/<area>_<x>/"""
 import subprocess, os, shutil, tempfile, sys, glob, json
 ROOT=os.environ.get('VERIF_ROOT') or os.path.dirname(os.path.dirname(os.path.abspath(__file__)))
+# the analyser is snapshotted once per run: a rebuild during a long sweep must not mix versions
+import atexit as _ae, shutil as _sh, tempfile as _tf
+HLINT=os.environ.get('HLINT_SNAPSHOT')
+if not HLINT:
+    _d=_tf.mkdtemp(prefix='/tmp/hlintbin.'); HLINT=_d+'/hlint'; _sh.copy2(ROOT+'/bin/hlint',HLINT); os.environ['HLINT_SNAPSHOT']=HLINT
+    _pid=os.getpid(); _ae.register(lambda: os.getpid()==_pid and _sh.rmtree(_d,ignore_errors=True))
+
 ENV=dict(os.environ,GOFLAGS='-mod=mod',GOPROXY='off',GOSUMDB='off',GOTOOLCHAIN='local')
 ALL=['C%02d'%i for i in range(1,18)]
 keep='--keep' in sys.argv
@@ -34,7 +41,7 @@ def one(p,res):
     res['tot']+=1
     alarms={}
     vd=tempfile.mkdtemp(prefix='/tmp/benverif.'); os.mkdir(vd+'/evidence'); shutil.copy(ROOT+'/known_findings.json',vd)
-    o=subprocess.run([ROOT+'/bin/hlint','-property','all','-repo',d,'-verif',vd],capture_output=True,text=True).stdout
+    o=subprocess.run([HLINT,'-property','all','-repo',d,'-verif',vd],capture_output=True,text=True).stdout
     cur=None
     for l in o.splitlines():
         if l.startswith('property C'): cur=l.split()[1]
